@@ -45,13 +45,15 @@ PROPERTY_MODULES = {
 # differential runs of the real code against clingo on the small corpus of native/corpus.py.  Labelled bounded in the
 # evidence and never counted among the discharged obligations; a *found* failing input is reported as a VIOLATION.
 STANDINS = {
+    "C03": [{"mirror": "corpus_no_exception"}],
     "C05": [{"mirror": "corpus", "trait": "none"}],
     "C08": [{"mirror": "corpus", "trait": "cleanup"}],
     "C11": [{"mirror": "corpus", "trait": "symmetry"}],
     "C12": [{"mirror": "corpus", "trait": "minmax_chains"}],
     "C13": [{"mirror": "corpus", "trait": "sum_chains"}],
     "C16": [{"mirror": "corpus", "trait": "projection"}],
-    "C19": [{"mirror": "verify_enable_bounded"}],
+    "C18": [{"mirror": "auto_detect_bounded"}],
+    "C19": [{"mirror": "verify_enable_bounded"}, {"mirror": "main_wiring"}],
 }
 
 
@@ -159,7 +161,7 @@ def run(prop, args, seed, t0):
     both = args.tier == "thorough"
     jobs = [(u, known_open, timeout_ms, both) for u in uids]
     ctxm = mp.get_context("fork")
-    with ctxm.Pool(min(args.jobs, len(jobs))) as pool:
+    with ctxm.Pool(min(args.jobs, len(jobs)), maxtasksperchild=1) as pool:  # one fresh process per unit (z3 sorts are per process)
         results = pool.map(_worker, jobs, chunksize=1)
     # ---- classify ---------------------------------------------------------------------------
     violations, undecided, problems = [], [], []
@@ -168,7 +170,7 @@ def run(prop, args, seed, t0):
     per_obl = []
     for r in results:
         if r["status"] == "crash":
-            problems.append(f"unit {r['unit']} crashed: {r['reason'][-1500:]}")
+            problems.append(f"unit {r['unit']} crashed: {r['reason'][-700:]}")
             continue
         if r["status"] == "out-of-reach":
             fb = UNITS[r["unit"]].fallback
